@@ -76,6 +76,12 @@ add("C08", "exploration",
     "Trusts the harness's AES-CTR/Poly1305-AES composition, trailer decoder, zstd and SHA-256 calls.",
     "DESIGN.md section 5 C08")
 
+add("C04", "exploration",
+    "runtime monitor: raw storage scan with planted markers + independent AES-CTR/Poly1305-AES authentication of every stored message + nonce-set monitor over whole histories and high-volume hook-H2 runs; tamper matrix with the oracle 'read fails or returns the original'; key histories against a set model",
+    "Held on the histories, messages, faults and key traces observed (two listed known findings: substituted snapshot/index file and substituted equal-layout pack are served without error). Cryptographic strength is not decided; nonce freshness is observed on 10^4-10^5 messages.",
+    "Trusts the harness's own composition of AES-256-CTR and Poly1305-AES from the primitive crates, its marker generator and raw parsers.",
+    "DESIGN.md section 5 C04")
+
 NOT_YET = "check not built yet (work in progress in this round)"
 
 def main():
